@@ -54,6 +54,15 @@ def check(ctx):
     ctx.run(r07_10, g)
     ctx.run(r07_11, g)
     ctx.run(r07_13, g, _independent=True)
+    def _numbering(ctx_):
+        # the BO ranges of successive chromosomes are disjoint and ascending (else the S lines of the complete file are
+        # not in (BO, NO) order): the numbering loop and the counter it returns, C06's rule
+        m_ = oc.build(ctx_, "R06.4")
+        info_ = c06.numbering_loop(ctx_, m_)
+        c06.r06_1(ctx_, m_, info_)  # (finds the BO variable of the numbering loop)
+        c06.r06_2_4(ctx_, m_, info_)
+
+    ctx.run(_numbering, _independent=True)
     ctx.run(c06.r06_4_caller, oc.build(ctx, "R06.4"))  # (BO, NO) order of the written S lines: the tags written are those computed, the counter is not disturbed
     ctx.not_decided += [
         "file-level equality on every GFA (tags round-trip through a dict: a repeated tag name on one S line keeps the last value)",
@@ -612,6 +621,19 @@ def r07_9(ctx, g):
                 parts = tmpl.of_expr(elem)
                 k, v = kv
                 ok = ok and tmpl.show(parts) == f"{{{k}}}:{{{v}[0]}}:{{{v}[1]}}"
+    if ok is not None:
+        # nothing else is put on the line: the list of tag columns is filled by that loop / comprehension only
+        for x in walk_own(f.node):
+            extra = None
+            if isinstance(x, ast.Call) and isinstance(x.func, ast.Attribute) and x.func.attr in ("append", "extend", "insert") and norm(x.func.value) == tags and not any(x is c_ for c_ in ap):
+                extra = norm(x)
+            elif isinstance(x, ast.AugAssign) and norm(x.target) == tags:
+                extra = norm(x)
+            if extra:
+                from .c09 import guards_of as _go
+
+                gs_ = [norm(t_) for t_, _p in _go(f.node, stmt_of(f.node, x) if not isinstance(x, ast.AugAssign) else x)]
+                ctx.violated("R07.9", f.where(x), f"`{extra[:70]}` puts a column on the S line that is not one of the segment's stored tags" + (f" (when `{gs_[0][:50]}`)" if gs_ else "") + ": the written graph carries a tag the input did not have (only BO and NO may be added, and those through the tag mapping)", key_of(f, f"S-line-extra-column:{extra[:40]}"))
     if ok is None:
         raise AnalysisError("R07.9", f.where(), "S-line serialiser is not of a recognised shape ('\\t'.join(['S', id, seq] + tags))")
     ctx.check(ok, "R07.9", f.where(), "an S line is 'S', the id, the sequence (or '*'), then every stored tag as NAME:TYPE:VALUE in stored order", key_of(f, "S-line"))
@@ -753,14 +775,21 @@ def r07_11(ctx, g):
         raise AnalysisError("R07.11", rg.where(), "cannot find the reader's add_edge call")
     targ = call[0].args[-1]
     t0 = "[]"
-    if isinstance(targ, ast.BoolOp) and isinstance(targ.op, ast.Or) and norm(targ.values[-1]) == "[0]":
-        t0 = "[0]"
+    if isinstance(targ, ast.BoolOp) and isinstance(targ.op, ast.Or):
+        if norm(targ.values[-1]) == "[0]":
+            t0 = "[0]"
+        elif norm(targ.values[-1]) not in ("[]", "list()"):
+            raise AnalysisError("R07.11", rg.where(call[0]), f"the reader stands `{norm(targ.values[-1])[:40]}` in for the tags of a link without optional fields: what the writer makes of that placeholder is not read by this rule")
+    elif isinstance(targ, ast.IfExp):
+        raise AnalysisError("R07.11", rg.where(call[0]), f"the reader chooses the tags argument with `{norm(targ)[:50]}`: the placeholder of a link without optional fields is not read by this rule")
     elif isinstance(targ, ast.Name):
         for st in walk_own(rg.node):
             if isinstance(st, ast.Assign) and norm(st.targets[0]) == targ.id and norm(st.value) == "[0]":
                 gds = [canon_test(t, pol) for t, pol in guards_of(rg.node, st)]
                 if (targ.id, False) in gds or (f"len({targ.id}) == 0", True) in gds:
                     t0 = "[0]"
+            elif isinstance(st, ast.Assign) and norm(st.targets[0]) == targ.id and isinstance(st.value, (ast.Name, ast.Constant, ast.Tuple)) and norm(st.value) not in ("[]",):
+                raise AnalysisError("R07.11", rg.where(st), f"the reader stands `{norm(st.value)[:40]}` in for the tags of a link: what the writer makes of that placeholder is not read by this rule")
     # does add_edge store T0?
     stores = [st for st in walk_own(ae.node) if isinstance(st, ast.Assign) and isinstance(st.targets[0], ast.Subscript) and norm(st.targets[0].value).endswith("edge_tags")]
     if len(stores) != 1:
